@@ -481,6 +481,8 @@ class Verifier:
             fn = z3.Function("uf_" + name, *([t.sort() for t in argts] + [rt.sort()]))
 
             def impl(I, args, kw, argts=argts, rt=rt, fn=fn):
+                if any(isinstance(a, VUndef) for a in args):
+                    return VUndef()
                 return rt.wrap(fn(*[unwrap(a, t) for a, t in zip(args, argts)]))
             return VFunc("builtin", name, impl=impl)
         if name in self.reg.ghostfuns:
